@@ -176,10 +176,29 @@ open Fox.Generated
 def b (s : String) : List Nat := s.toList.map Char.toNat
 def pNotNil : List Nat := b "p != nil"
 
+/-- the events of the function body proper (not of its deferred function) -/
+def mainLine (l : List SyncItem) : List (SyncEv × SyncCtx × List Nat) :=
+  (l.filter fun i => !(i.ctx == .deferred || i.ctx == .deferredRecovered)).map SyncItem.key
+
+def deferredPart (l : List SyncItem) : List SyncItem := l.filter fun i => i.ctx == .deferred || i.ctx == .deferredRecovered
+
+/-- the deferred function calls `recover()` -/
+def recoversPanic (l : List SyncItem) : Bool := (deferredPart l).any (·.ev == .recover)
+
+/-- a panic in flight: the deferred function aborts the transaction BEFORE it re-panics (an abort placed after the
+    re-panic would not run) - whether the abort sits inside the `p != nil` branch or in front of it -/
+def panicPathAborts (l : List SyncItem) : Bool :=
+  ((deferredPart l).takeWhile (·.ev != .repanic)).any (·.ev == .deferAbort) && (deferredPart l).any (·.ev == .repanic)
+
+/-- no panic in flight (return, error, runtime.Goexit): an abort outside the "recovered a panic" branch runs -/
+def normalPathAborts (l : List SyncItem) : Bool :=
+  (deferredPart l).any fun i => i.ev == .deferAbort && i.ctx == .deferred
+
 /-- Commit: read-only guard (return), settled guard (return), THEN Store, THEN Unlock. Abort: the same guards, one Unlock.
-    Updates / View: begin, a deferred function that aborts on the panic path (and re-panics) and on the normal path, the
-    function, return on error BEFORE Commit (View never commits). Every single-operation helper: begin a write
-    transaction, `defer txn.Abort()`, return on error, Commit. -/
+    Updates / View: begin, a deferred function that recovers, aborts on the panic path before it re-panics and aborts on
+    the normal path (stated by what runs on each path, not by the wording of the deferred function), the function, return
+    on error BEFORE Commit (View never commits). Every single-operation helper: begin a write transaction,
+    `defer txn.Abort()`, return on error, Commit. -/
 theorem sync_shape :
     sync_Commit.map (fun i => (i.ev, i.ctx, i.guard, i.act)) =
       [(.guardReadOnly, .always, [], b "return"), (.guardSettled, .always, [], b "return"),
@@ -187,13 +206,11 @@ theorem sync_shape :
     sync_Abort.map (fun i => (i.ev, i.ctx, i.guard, i.act)) =
       [(.guardReadOnly, .always, [], b "return"), (.guardSettled, .always, [], b "return"),
        (.unlock, .always, [], b "txn.fox.mu.Unlock")] ∧
-    sync_Updates.map SyncItem.key =
-      [(.beginWrite, .always, []), (.recover, .deferred, []), (.deferAbort, .deferredRecovered, pNotNil),
-       (.repanic, .deferredRecovered, pNotNil), (.deferAbort, .deferred, []), (.callFn, .always, []),
-       (.errReturn, .always, []), (.callCommit, .always, [])] ∧
-    sync_View.map SyncItem.key =
-      [(.beginRead, .always, []), (.recover, .deferred, []), (.deferAbort, .deferredRecovered, pNotNil),
-       (.repanic, .deferredRecovered, pNotNil), (.deferAbort, .deferred, []), (.callFn, .always, [])] ∧
+    (mainLine sync_Updates =
+      [(.beginWrite, .always, []), (.callFn, .always, []), (.errReturn, .always, []), (.callCommit, .always, [])] ∧
+     recoversPanic sync_Updates = true ∧ panicPathAborts sync_Updates = true ∧ normalPathAborts sync_Updates = true) ∧
+    (mainLine sync_View = [(.beginRead, .always, []), (.callFn, .always, [])] ∧
+     recoversPanic sync_View = true ∧ panicPathAborts sync_View = true ∧ normalPathAborts sync_View = true) ∧
     [sync_Handle, sync_HandleRoute, sync_Update, sync_UpdateRoute, sync_Delete].all (fun f => f.map SyncItem.key ==
       [(.beginWrite, .always, []), (.deferAbort, .always, []), (.errReturn, .always, []), (.callCommit, .always, [])]) = true := by
   refine ⟨by decide, by decide, by decide, by decide, by decide⟩
